@@ -507,6 +507,9 @@ func (o *pubCtxOracle) callResult(v ssa.Value, idx, d int) bool {
 	if cc.IsInvoke() {
 		return cc.Method.Name() == "OnPublishStart" && len(cc.Args) > 0 && o.walk(cc.Args[0], d+1)
 	}
+	if prm := nilCtxDefault(call); prm != nil {
+		return o.walk(prm, d+1)
+	}
 	rs := o.ix.Returned(call, idx)
 	if len(rs) == 0 {
 		return false
